@@ -1328,6 +1328,11 @@ class Interp:
                 raise _BagIteration(src, g)
             if isinstance(src, libmodel_EnumBag()):
                 raise _BagIteration(src.bag, g, enum_start=src.start)
+            if isinstance(src, ops.ZipVal):
+                bags = [q for q in src.seqs if isinstance(ops.strval(q), ABag)]
+                if len(bags) == 1 and all(isinstance(q, CycleVal) or q is bags[0] for q in src.seqs):
+                    # zip(cycle(...), <string of unknown length>): one abstract element - the character set paired with any item of the cycle
+                    raise _BagIteration(ops.strval(bags[0]), g, zipped=[None if q is bags[0] else q for q in src.seqs])
             for x in ops.iterate(self, src, g.iter):
                 self.assign(g.target, x, sub)
                 if all(self.eval_cond(c, sub) for c in g.ifs):
@@ -1349,7 +1354,10 @@ class Interp:
                 raise CannotEvaluate("comprehension over a string of unknown length")
             sub = Frame(frame.func, frame.module, {}, cls=frame.cls, self_val=frame.self_val, closure=frame)
             sub.comp_depth = frame.comp_depth + 1
-            if b.enum_start is None:
+            if b.zipped is not None:
+                parts = tuple(b.bag.cs if q is None else join_values(list(q.items)) for q in b.zipped)
+                self.assign(node.generators[0].target, parts, sub)
+            elif b.enum_start is None:
                 self.assign(node.generators[0].target, b.bag.cs, sub)
             else:
                 idx = Interval(b.enum_start, b.enum_start + max(b.bag.hi - 1, 0)) if b.bag.hi > 1 else b.enum_start
@@ -1383,10 +1391,11 @@ class Interp:
 
 
 class _BagIteration(Exception):
-    def __init__(self, bag, gen, enum_start=None):
+    def __init__(self, bag, gen, enum_start=None, zipped=None):
         self.bag = bag
         self.gen = gen
         self.enum_start = enum_start
+        self.zipped = zipped
 
 
 def libmodel_EnumBag():
